@@ -243,7 +243,11 @@ class _Timeout(Exception):
     pass
 
 
+_ALARM_FIRED = [False]
+
+
 def _alarm(signum, frame):
+    _ALARM_FIRED[0] = True
     raise _Timeout()
 
 
@@ -251,24 +255,23 @@ def _guarded(args):
     work, task, limit = args
     t0 = time.time()
     signal.signal(signal.SIGALRM, _alarm)
+    _ALARM_FIRED[0] = False
     signal.alarm(limit)
     try:
         r = work(task)
         r["wall"] = time.time() - t0
         return r
-    except _Timeout:
+    except BaseException as e:
+        # the alarm may fire inside a ctypes callback (z3), which re-wraps _Timeout as ctypes.ArgumentError
+        if isinstance(e, _Timeout) or _ALARM_FIRED[0]:
+            why = f"task wall limit {limit}s"
+        else:  # harness bug: reported, never silently passed
+            why = ("harness exception: " + "".join(traceback.format_exception_only(type(e), e))[-300:] +
+                   traceback.format_exc()[-600:])
         return {"pid": task.get("id", "?"), "family": task.get("family", "?"), "obligations": 0, "discharged": 0,
                 "violations": [], "unreproduced": [], "samples": [], "stats": {}, "errors": [], "nontrivial": False,
-                "inconclusive": [{"key": f"task:{task.get('id','?')}", "why": f"task wall limit {limit}s"}],
+                "inconclusive": [{"key": f"task:{task.get('id','?')}", "why": why}],
                 "wall": time.time() - t0, "notes": []}
-    except BaseException as e:  # harness bug: reported, never silently passed
-        return {"pid": task.get("id", "?"), "family": task.get("family", "?"), "obligations": 0, "discharged": 0,
-                "violations": [], "unreproduced": [], "samples": [], "stats": {}, "errors": [],
-                "nontrivial": False, "notes": [],
-                "inconclusive": [{"key": f"task:{task.get('id','?')}", "why": "harness exception: " +
-                                  "".join(traceback.format_exception_only(type(e), e))[-300:] +
-                                  traceback.format_exc()[-600:]}],
-                "wall": time.time() - t0}
     finally:
         signal.alarm(0)
 
